@@ -241,6 +241,7 @@ def register(R):
 
   R.bounded_checks[P] = [
       ('bounded_operator_chains', 'all chains of <=3 operators from 11 (select/apply/assign/filter/sink; tuple, kwargs, nested-path, SKIP keys), fused and as named stages, vs a reference interpreter; input records untouched; sinks see every record once and are closed once'),
+      ('bounded_batch_operator', '.batch(k) alone, after select / renamed select / apply, and followed by apply: chunks of k in order, per output key, nothing lost'),
       ('bounded_chain_api', 'TreeTransform.chain: fused (same name) and chained (different names) pairs route like the operator sequence'),
       ('bounded_reserved_names', "columns literally named 'SELF' / 'SKIP' are ordinary columns for select/apply/assign/filter"),
       ('bounded_sink_on_failure', 'an operator fails at each record: the error surfaces and every sink is closed exactly once'),
